@@ -35,11 +35,11 @@ def one(args):
 
 
 def main():
-    root = sys.argv[1] if len(sys.argv) > 1 else os.path.join(VERIF, "seeded")
+    root = os.path.abspath(sys.argv[1] if len(sys.argv) > 1 else os.path.join(VERIF, "seeded"))
     items = []
     for d in sorted(os.listdir(root)):
         dd = os.path.join(root, d)
-        if not os.path.isdir(dd):
+        if not os.path.isdir(dd) or d.startswith("_"):
             continue
         for sub in sorted(os.listdir(dd)):
             pth = os.path.join(dd, sub, "patch.diff")
@@ -47,7 +47,7 @@ def main():
                 items.append(("%s/%s" % (d, sub), pth))
             elif sub == "patch.diff":
                 items.append((d, os.path.join(dd, sub)))
-    with ThreadPoolExecutor(8) as ex:
+    with ThreadPoolExecutor(14) as ex:
         results = dict(ex.map(one, enumerate(items)))
     json.dump(results, open(os.path.join(root, "MATRIX.json"), "w"), indent=1, sort_keys=True)
     for name in sorted(results):
